@@ -1,4 +1,104 @@
-(* Props/C02.v — placeholder while the proofs are being written *)
-From SA Require Import Model.Threshold.
-Example C02_placeholder : reverse_method Lower = Higher.
-Proof. reflexivity. Qed.
+(* Props/C02.v — property C02: threshold setting round-trips within one sample; the three methods are
+   coherent. Statements only. Exact-rational model of the repaired tree; np.nextafter = succ/pred with
+   x < succ x, pred x < x.  "within1 c v" means c - 1 <= v <= c + 1 (counts, i.e. rates times the
+   population: one sample).  "ssorted l" = strictly increasing (no value repeated). *)
+From SA Require Import Model.Threshold Proofs.ExtremeFacts Proofs.InvIncrFacts Proofs.RoundtripFacts.
+Open Scope Q_scope.
+
+(* --- round trip, untied scores: for each metric the count that defines it, at the returned
+   threshold (method linear), is within ONE sample of the hard target times the class size; the hard
+   target is the requested rate rescaled for easy samples and clipped to [0,1] (hard_target_*
+   are the literal rescaling expressions of the code). All four configurations, any easy counts. --- *)
+Theorem C02_roundtrip_untied :
+  forall (succ pred : Q -> Q), (forall x, x < succ x) -> (forall x, pred x < x) ->
+  forall (s : scores) (r T : Q),
+  (ssorted (pos s) -> threshold_at_tpr succ pred s r Linear = Ret T ->
+     within1 (ctp (cm s (Fin T)) - easy_pos s) (clip01 (hard_target_tpr s r) * inject_Z (len (pos s)))) /\
+  (ssorted (pos s) -> threshold_at_fnr succ pred s r Linear = Ret T ->
+     within1 (cfn (cm s (Fin T))) (clip01 (hard_target_fnr s r) * inject_Z (len (pos s)))) /\
+  (ssorted (neg s) -> threshold_at_tnr succ pred s r Linear = Ret T ->
+     within1 (ctn (cm s (Fin T)) - easy_neg s) (clip01 (hard_target_tnr s r) * inject_Z (len (neg s)))) /\
+  (ssorted (neg s) -> threshold_at_fpr succ pred s r Linear = Ret T ->
+     within1 (cfp (cm s (Fin T))) (clip01 (hard_target_fpr s r) * inject_Z (len (neg s)))) /\
+  (ssorted (concat_scores s) -> threshold_at_topr succ pred s r Linear = Ret T ->
+     within1 (ctp (cm s (Fin T)) + cfp (cm s (Fin T)) - easy_pos s)
+             (clip01 (hard_target_topr s r) * inject_Z (len (concat_scores s)))) /\
+  (ssorted (concat_scores s) -> threshold_at_tonr succ pred s r Linear = Ret T ->
+     within1 (cfn (cm s (Fin T)) + ctn (cm s (Fin T)) - easy_neg s)
+             (clip01 (hard_target_tonr s r) * inject_Z (len (concat_scores s)))).
+Proof.
+  intros succ pred Hs Hp s r T.
+  split; [intros; now apply (roundtrip_tpr succ pred Hs Hp)|].
+  split; [intros; now apply (roundtrip_fnr succ pred Hs Hp)|].
+  split; [intros; now apply (roundtrip_tnr succ pred Hs Hp)|].
+  split; [intros; now apply (roundtrip_fpr succ pred Hs Hp)|].
+  split; [intros; now apply (roundtrip_topr succ pred Hs Hp)|].
+  intros; now apply (roundtrip_tonr succ pred Hs Hp).
+Qed.
+Print Assumptions C02_roundtrip_untied.
+
+(* the hard target in terms of the requested rate, spelled out for FNR: the false-negative count is
+   within one sample of r * N_all clipped to the achievable range [0, N_hard].
+   (_partial: this explicit form of the rescaling is proved for FNR only; for the other five metrics
+   the theorem above is stated with the rescaling expression of the code.) *)
+Theorem C02_roundtrip_fnr_rate_partial :
+  forall (succ pred : Q -> Q), (forall x, x < succ x) -> (forall x, pred x < x) ->
+  forall s r T, ssorted (pos s) -> (0 <= easy_pos s)%Z -> threshold_at_fnr succ pred s r Linear = Ret T ->
+  within1 (cfn (cm s (Fin T))) (clipQ 0 (inject_Z (len (pos s))) (r * inject_Z (len (pos s) + easy_pos s))).
+Proof. intros succ pred Hs Hp s r T. exact (roundtrip_fnr_rate succ pred s r T Hs Hp). Qed.
+Print Assumptions C02_roundtrip_fnr_rate_partial.
+
+(* --- ties allowed: the metric just below and just above the returned threshold (counting with <
+   and with <=) brackets the hard target to the same tolerance; stated on _threshold_at_ratio for any
+   list of scores, direction flags and target (all six metrics go through it) --- *)
+Theorem C02_bracket_with_ties :
+  forall (succ pred : Q -> Q), (forall x, x < succ x) -> (forall x, pred x < x) ->
+  forall (s : scores) (l : list Q) (u : Q) (increasing : bool) (ratio_class : label),
+  sorted l -> (1 <= len l)%Z ->
+  let T := threshold_at_ratio succ pred s l u increasing ratio_class Linear in
+  let v := (if flipped s increasing then 1 - clip01 u else clip01 u) * inject_Z (len l) in
+  inject_Z (below SLeft l T) - 1 <= v /\ v <= inject_Z (below SRight l T) + 1.
+Proof. exact tar_bracket. Qed.
+Print Assumptions C02_bracket_with_ties.
+
+(* --- coherence of the three methods (normalised increasing metric = _invert_increasing_function) --- *)
+Theorem C02_lower_higher_are_samples_or_sentinels :
+  forall (succ pred : Q -> Q) (l : list Q) (u : Q) (lc : bool), (1 <= len l)%Z ->
+  (In (inv_incr succ pred l u lc Lower) l \/ inv_incr succ pred l u lc Lower = pred (nthZ l 0)
+     \/ inv_incr succ pred l u lc Lower = succ (nthZ l (len l - 1))) /\
+  (In (inv_incr succ pred l u lc Higher) l \/ inv_incr succ pred l u lc Higher = pred (nthZ l 0)
+     \/ inv_incr succ pred l u lc Higher = succ (nthZ l (len l - 1))).
+Proof. exact lower_higher_in_list. Qed.
+Print Assumptions C02_lower_higher_are_samples_or_sentinels.
+
+Theorem C02_linear_between_lower_and_higher :
+  forall (succ pred : Q -> Q) (l : list Q) (u : Q) (lc : bool), sorted l -> (1 <= len l)%Z ->
+  inv_incr succ pred l u lc Lower <= inv_incr succ pred l u lc Linear /\
+  inv_incr succ pred l u lc Linear <= inv_incr succ pred l u lc Higher.
+Proof. exact lower_le_linear_le_higher. Qed.
+Print Assumptions C02_linear_between_lower_and_higher.
+
+(* linear = convex combination of lower and higher weighted by ceil(x) - x, x = (shifted) target * N *)
+Theorem C02_linear_is_convex_combination :
+  forall (succ pred : Q -> Q) (l : list Q) (u : Q) (lc : bool),
+  let la := inject_Z (Qceiling (xpos l u lc)) - xpos l u lc in
+  inv_incr succ pred l u lc Linear == la * inv_incr succ pred l u lc Lower + (1 - la) * inv_incr succ pred l u lc Higher.
+Proof. exact linear_convex. Qed.
+Print Assumptions C02_linear_is_convex_combination.
+
+(* metric(lower) <= metric(higher) for the normalised metric, with either tie convention *)
+Theorem C02_metric_lower_le_higher :
+  forall (succ pred : Q -> Q) (l : list Q) (u : Q) (lc : bool), sorted l -> (1 <= len l)%Z ->
+  (count (fun x => Qltb x (inv_incr succ pred l u lc Lower)) l <= count (fun x => Qltb x (inv_incr succ pred l u lc Higher)) l)%Z /\
+  (count (fun x => Qleb x (inv_incr succ pred l u lc Lower)) l <= count (fun x => Qleb x (inv_incr succ pred l u lc Higher)) l)%Z.
+Proof. exact lower_higher_counts. Qed.
+Print Assumptions C02_metric_lower_le_higher.
+
+(* Not proved here (kept by correspondence + oracle on every run): monotonicity of the threshold in r. *)
+
+Example C02_example :
+  ssorted [1#1; 2#1; 4#1; 8#1] /\
+  threshold_at_fnr succ64 pred64 (mk_scores [1#1; 2#1; 4#1; 8#1] [3#1] 0 0 Pos Pos false) (3#8) Linear = Ret (3#1).
+Proof.
+  split; [repeat (constructor; try reflexivity)|vm_compute; reflexivity].
+Qed.
